@@ -22,7 +22,7 @@ from fdsim import specgen
 
 PROPERTY = "C10"
 LEVEL = "exploration"
-RUNS = {"quick": 16, "thorough": 300}
+RUNS = {"quick": 12, "thorough": 300}
 TOL = 1e-10
 LINEAR = ("field", "phasor")
 RULE = (
